@@ -252,4 +252,58 @@ theorem default_variant_valid (c : Char) (r tbl : List Char) (h : isAlpha c = tr
 
 example : mustBeValidIden (snake "XMLHttpRequest2".toList) = true := by decide
 
+/-! ## the shape of the name: lower case, single underscores between non-empty words -/
+
+theorem toLower_not_upper (c : Char) (_h : isAlnum c = true) : isUpper (toLower c) = false := by
+  unfold toLower
+  split
+  · rename_i hu
+    have hu' := (isUpper_iff c).1 hu
+    have ht : (Char.ofNat (c.toNat + 32)).toNat = c.toNat + 32 := toNat_ofNat_small _ (by omega)
+    cases hx : isUpper (Char.ofNat (c.toNat + 32)) with
+    | false => rfl
+    | true => have := (isUpper_iff _).1 hx; omega
+  · rename_i hu; simpa using hu
+
+/-- **No upper-case letter survives in `snake s`.** -/
+theorem snake_lower (s : List Char) : ∀ c ∈ snake s, isUpper c = false := by
+  intro c hc
+  have hc' : c ∈ List.intercalate ['_'] ((words s).map (·.map toLower)) := by simpa [snake] using hc
+  rcases mem_intercalate hc' with h | ⟨w, hw, hcw⟩
+  · subst h; decide
+  · obtain ⟨v, hv, rfl⟩ := List.mem_map.1 hw
+    obtain ⟨d, hd, rfl⟩ := List.mem_map.1 hcw
+    exact toLower_not_upper d (words_alnum s v hv d hd)
+
+/-- every piece `splitWord` cuts is non-empty (in upper mode something has always been collected) -/
+theorem splitWord_nonempty : ∀ (w cur : List Char) (m : Mode), (m = Mode.upper → cur ≠ []) →
+    ∀ x ∈ splitWord cur m w, x ≠ []
+  | [], _, _, _ => by intro x hx; simp [splitWord] at hx
+  | [c], cur, m, _ => by intro x hx; simp [splitWord] at hx; subst hx; simp
+  | c :: n :: rest, cur, m, hinv => by
+    intro x hx
+    simp only [splitWord] at hx
+    repeat' split at hx
+    all_goals first
+      | exact splitWord_nonempty (n :: rest) (cur ++ [c]) _ (fun _ => by simp) x hx
+      | (rcases List.mem_cons.1 hx with h | h
+         · subst h
+           first
+             | (simp; done)
+             | (rename_i hcond; apply hinv; simp at hcond; exact (by simpa using hcond.1.1))
+         · first
+           | exact splitWord_nonempty (n :: rest) [] _ (fun h0 => by cases h0) x h
+           | exact splitWord_nonempty (n :: rest) [c] _ (fun h0 => by cases h0) x h)
+
+theorem words_nonempty (s : List Char) : ∀ w ∈ words s, w ≠ [] := by
+  intro w hw
+  simp only [words, List.mem_flatMap] at hw
+  obtain ⟨v, _, hwv⟩ := hw
+  exact splitWord_nonempty v [] _ (fun h0 => by cases h0) w hwv
+
+/-- hence `snake s` is its non-empty lower-case alphanumeric words joined by single `_` -/
+theorem snake_words (s : List Char) :
+    snake s = List.intercalate ['_'] ((words s).map (·.map toLower)) ∧ (∀ w ∈ words s, w ≠ [] ∧ AllAlnum w) :=
+  ⟨by simp [snake], fun w hw => ⟨words_nonempty s w hw, words_alnum s w hw⟩⟩
+
 end SeaQ.Props.C19Snake
